@@ -43,8 +43,12 @@ class Violation:
         self.replay = replay           # JSON-serialisable data reproducing it
 
 
+LIVE_RESULTS = []     # results under construction (./check reports their violations even if a later step fails)
+
+
 class Result:
     def __init__(self):
+        LIVE_RESULTS.append(self)
         self.states = 0
         self.transitions = 0
         self.traces_validated = 0
